@@ -218,7 +218,8 @@ Print Assumptions C13_inherit_live.
 
 (** after a successful set the shape reports its own value; the dimensions of the other
     pair are untouched; the partner of the same pair (top for left, ...) becomes an own value
-    too: its previous own value, or 0 when the a:off / a:ext had to be created *)
+    too: its previous own value, or 0 when the a:off / a:ext had to be created (unchanged by the
+    repo fix that validates before adding: only REFUSED values stopped leaving zeros) *)
 Theorem C13_set_own : forall c a v M Ls s s',
   set_attr a v s = (s', Ok tt) ->
   slide_eff c a M Ls s' = Ok (Some v) /\ s_ph s' = s_ph s /\ s_name s' = s_name s /\
@@ -228,14 +229,18 @@ Theorem C13_set_own : forall c a v M Ls s s',
 Proof. exact set_own. Qed.
 Print Assumptions C13_set_own.
 
+(** a refused value (outside ST_Coordinate / ST_PositiveCoordinate) raises ValueError and leaves
+    the shape exactly as it was: an inheriting placeholder keeps inheriting *)
 Theorem C13_set_rejected : forall a v s s' e,
   set_attr a v s = (s', Err e) ->
-  e = ValueErr /\ coord_ok a v = false /\
-  (forall b, same_pair a b = false -> own b s' = own b s) /\
-  (forall b, same_pair a b = true ->
-     own b s' = Some (match own b s with Some x => x | None => 0%Z end)).
+  e = ValueErr /\ coord_ok a v = false /\ s' = s.
 Proof. exact set_attr_err. Qed.
 Print Assumptions C13_set_rejected.
+
+Theorem C13_set_rejected_iff : forall a v s,
+  coord_ok a v = false -> set_attr a v s = (s, Err ValueErr).
+Proof. exact set_attr_rejected. Qed.
+Print Assumptions C13_set_rejected_iff.
 
 Example C13_inherit_example :
   exists d' s, add_slide gen_cfg ex_deck 0 = (d', Ok tt) /\ nth_error (d_slides d') 1 = Some s /\
@@ -246,8 +251,20 @@ Proof. eexists; eexists. vm_compute. repeat split; reflexivity. Qed.
 Example C13_set_example :
   let s := mk_shape 2%N [] (Some (mk_ph None None None None)) None None true in
   fst (set_attr ALeft 5%Z s) = mk_shape 2%N [] (Some (mk_ph None None None None)) (Some (5, 0)%Z) None true /\
-  set_attr AWidth (-1)%Z s = (mk_shape 2%N [] (Some (mk_ph None None None None)) None (Some (0, 0)%Z) true, Err ValueErr).
-Proof. vm_compute. split; reflexivity. Qed.
+  set_attr AWidth (-1)%Z s = (s, Err ValueErr) /\
+  set_attr ALeft 27273042316901%Z s = (s, Err ValueErr).
+Proof. vm_compute. repeat split; reflexivity. Qed.
+
+(** regression (repo fix: a refused left / top / width / height made an inheriting shape read 0):
+    after a refused width the placeholder of a new slide still reports the inherited width, and a
+    later accepted left seeds only its own pair *)
+Example C13_set_rejected_regression :
+  let d := final gen_cfg ex_deck [AddSlide 0; Edit (TSlide 1 1) (ESet AWidth (-1)%Z); Edit (TSlide 1 1) (ESet ATop (2 ^ 70)%Z)] in
+  exists s sp, nth_error (d_slides d) 1 = Some s /\ nth_error (sl_shapes s) 1 = Some sp /\
+    s_off sp = None /\ s_ext sp = None /\
+    slide_geom gen_cfg d s AWidth sp = Ok (Some 13%Z) /\ slide_geom gen_cfg d s ATop sp = Ok (Some 12%Z) /\
+    snd (run_ops gen_cfg ex_deck [AddSlide 0; Edit (TSlide 1 1) (ESet AWidth (-1)%Z)]) = [Ok tt; Err ValueErr].
+Proof. do 2 eexists. vm_compute. repeat split; reflexivity. Qed.
 
 (** ** the new slide is last, related to the layout; everything else is untouched *)
 Theorem C13_last_and_frame : forall c d l d' r,
